@@ -312,7 +312,7 @@ pub fn run(pc: &PropCtx) {
     let cases = pc.tier.pick(150_000, 1_500_000);
     pc.run_tape("multi_line", cases, (128, 1500), gen_case, check);
     if pc.tier == crate::runner::Tier::Thorough {
-        pc.run_fuzz("C13:multi_line", 400_000, 6000, &|v| replay(pc, "multi_line", v).unwrap_or(Verdict::Reject("unreadable")));
+        pc.run_fuzz("C13:multi_line", 20_000, 6000, &|v| replay(pc, "multi_line", v).unwrap_or(Verdict::Reject("unreadable")));
     }
     pc.require_class("multi_line:match_spans_lines", cases as u64 / 20);
 }
